@@ -756,3 +756,61 @@ func init() {
 		return structure{p}
 	}
 }
+
+func init() {
+	// (*fiber.Bind).RespHeader(out) for out = map[string][]string: the reflection-based binder is
+	// replaced by "collect the response headers" (what the binder does for this target type).
+	externals["(*github.com/gofiber/fiber/v3.Bind).RespHeader"] = func(fr *frame, a []value) value {
+		i := fr.i
+		out, ok := a[1].(iface)
+		if !ok || out.t == nil {
+			return notHandled{}
+		}
+		m, isMap := out.v.(*omap)
+		mt, isMapT := out.t.Underlying().(*types.Map)
+		if !isMap || !isMapT {
+			return notHandled{}
+		}
+		if _, isSlice := mt.Elem().Underlying().(*types.Slice); !isSlice {
+			return notHandled{}
+		}
+		i.stubsUsed["fiber.Bind.RespHeader(map[string][]string)=collect response headers"] = true
+		bind := (*a[0].(*value)).(structure)
+		st := deref(fr.fn.Signature.Recv().Type()).Underlying().(*types.Struct)
+		var ctx iface
+		for k := 0; k < st.NumFields(); k++ {
+			if st.Field(k).Name() == "ctx" {
+				ctx = bind[k].(iface)
+			}
+		}
+		resp, ok2 := fr.callMethod(ctx.t, ctx.v, "Response")
+		if !ok2 {
+			panic(abort(abUnsupported, "Bind.RespHeader: ctx without Response()"))
+		}
+		// resp is *fasthttp.Response; its Header field is a ResponseHeader
+		rp := resp.(*value)
+		rt := i.prog.ImportedPackage("github.com/valyala/fasthttp").Type("Response").Type().Underlying().(*types.Struct)
+		var hdr *value
+		for k := 0; k < rt.NumFields(); k++ {
+			if rt.Field(k).Name() == "Header" {
+				hdr = &(*rp).(structure)[k]
+			}
+		}
+		cb := nativeFn(func(fr2 *frame, args []value) value {
+			key := mkStringCopy(args[0].([]value))
+			val := mkStringCopy(args[1].([]value))
+			old, _ := m.lookup(fr2, key)
+			var lst []value
+			if old != nil {
+				lst = old.([]value)
+			}
+			m.insert(fr2, key, append(append([]value{}, lst...), val))
+			return nil
+		})
+		hpt := types.NewPointer(i.prog.ImportedPackage("github.com/valyala/fasthttp").Type("ResponseHeader").Type())
+		if _, ok := fr.callMethod(hpt, hdr, "VisitAll", cb); !ok {
+			panic(abort(abUnsupported, "Bind.RespHeader: VisitAll not found"))
+		}
+		return iface{}
+	}
+}
